@@ -6,18 +6,41 @@ Z = "github.com/internetarchive/Zeno"
 DEFAULT_STUBS = [
     Z + "/internal/pkg/log", "github.com/davecgh/go-spew", "log/slog", "log",
     "github.com/prometheus/client_golang", "github.com/dustin/go-humanize",
+    "regexp", "mvdan.cc/xurls/v2",
 ]
 STATS = Z + "/internal/pkg/stats"
 DEFAULT_INIT = ["io", "errors"]
 DEFAULT_MODELS = {
     "github.com/CorentinB/warc.NewWARCWritingHTTPClient": Z + "/internal/verifmodel.NewWARCWritingHTTPClient",
     "(*github.com/CorentinB/warc.CustomHTTPClient).Close": Z + "/internal/verifmodel.WarcClientClose",
+    "github.com/grafov/m3u8.DecodeFrom": Z + "/internal/verifmodel.M3U8DecodeFrom",
+    "encoding/json.Unmarshal": Z + "/internal/verifmodel.JSONUnmarshal",
+    "(*encoding/json.Decoder).Decode": Z + "/internal/verifmodel.JSONDecoderDecode",
+    "strings.Split": Z + "/internal/verifmodel.StringsSplit",
+    "strings.SplitN": Z + "/internal/verifmodel.StringsSplitN",
+    "strings.SplitAfterN": Z + "/internal/verifmodel.StringsSplitAfterN",
+    "strings.Trim": Z + "/internal/verifmodel.StringsTrim",
+    "strings.TrimLeft": Z + "/internal/verifmodel.StringsTrimLeft",
+    "strings.TrimRight": Z + "/internal/verifmodel.StringsTrimRight",
+    "strings.TrimSpace": Z + "/internal/verifmodel.StringsTrimSpace",
+    "strings.TrimPrefix": Z + "/internal/verifmodel.StringsTrimPrefix",
+    "strings.TrimSuffix": Z + "/internal/verifmodel.StringsTrimSuffix",
+    "strings.LastIndexByte": Z + "/internal/verifmodel.StringsLastIndexByte",
+    "strings.LastIndex": Z + "/internal/verifmodel.StringsLastIndex",
+    "strings.Count": Z + "/internal/verifmodel.StringsCount",
+    "strings.Repeat": Z + "/internal/verifmodel.StringsRepeat",
+    "strings.Replace": Z + "/internal/verifmodel.StringsReplace",
+    "strings.ReplaceAll": Z + "/internal/verifmodel.StringsReplaceAll",
+    "strings.Cut": Z + "/internal/verifmodel.StringsCut",
+    "strings.Join": Z + "/internal/verifmodel.StringsJoin",
+    "strings.ContainsAny": Z + "/internal/verifmodel.StringsContainsAny",
+    "strings.Fields": Z + "/internal/verifmodel.StringsFields",
 }
 
 COMMON_ASSUME = [
     "go/ssa faithfully represents the compiled program (same front end, go1.24.2 type checker)",
     "engine semantics of SSA instructions, bit-vector integers (wrap-around), IEEE-754 binary64 (RNE) and amd64 float->int conversion results",
-    "logging, spew, slog, prometheus and humanize calls are no-ops (formatting is never the subject)",
+    "logging, spew, slog, prometheus and humanize calls are no-ops (formatting is never the subject); regexp/xurls objects are opaque (their methods return zero values) - no claimed obligation depends on a regular expression",
 ]
 
 PROPS = {}
@@ -157,5 +180,24 @@ PROPS["C03"] = {
     "stub_pkgs": DEFAULT_STUBS + [STATS],
     "harnesses": [
         {"pkg": AR, "func": "VerifH_C03_archiver_startstop", "replay_tries": 2, "covers": ["proxy", "direct", "stopped"]},
+    ],
+}
+
+EX = "internal/pkg/postprocessor/extractor"
+PROPS["C19"] = {
+    "level": "model_checking",
+    "explanation": "the extractors' own link-construction code (hasFileExtension, findURLs/GetURLsFromJSON split, M3U8 playlist walk, s3Legacy, s3V2) is executed from SSA on documents whose shape is chosen "
+                   "symbolically (JSON value trees, playlists with nil slots, bucket pages with symbolic object sizes/truncation) and compared with reference rules written from the statement; net/url is executed from its real SSA.",
+    "bounds": "URL texts <=6 bytes over {a . / ? #}; JSON trees depth<=2 (quick) / 3 (thorough), width<=2, 5 leaf kinds incl. JSON-in-string; playlists <=3 segments / <=2 variants x <=2 alternatives; S3 pages <=2 objects (3 key shapes, symbolic sizes), <=2 common prefixes, truncation flag and token symbolic",
+    "outside": "JSON/XML/M3U8 tokenisation (encoding/json, encoding/xml, grafov/m3u8 are modelled as delivering the value the harness built; natively the replay goes through the real decoders); the XML/sitemap extractor; multi-page bucket walks",
+    "assumptions": COMMON_ASSUME + ["strings.Split/Trim/... are replaced by plain-Go models validated against the real functions on all strings <=5 over a 4-letter alphabet (verifmodel self-test)",
+                                    "json.Decoder.Decode / json.Unmarshal / m3u8.DecodeFrom return the harness-built value (contract: total, no panic)"],
+    "harnesses": [
+        {"pkg": EX, "func": "VerifH_C19_extension", "covers": ["has-extension", "no-extension"]},
+        {"pkg": EX, "func": "VerifH_C19_json_depth2", "opts": {"max_steps": 20000000}, "covers": ["json-in-string", "several-urls"]},
+        {"pkg": EX, "func": "VerifH_C19_json_depth3", "opts": {"max_steps": 20000000}, "thorough_only": True, "covers": ["json-in-string", "several-urls"]},
+        {"pkg": EX, "func": "VerifH_C19_s3_legacy", "covers": ["object-linked", "next-page"]},
+        {"pkg": EX, "func": "VerifH_C19_s3_v2", "covers": ["objects-and-prefixes", "prefix-linked", "continuation"]},
+        {"pkg": EX, "func": "VerifH_C19_m3u8", "covers": ["media", "master", "alternative"]},
     ],
 }
